@@ -1,12 +1,12 @@
 SPECIFICATION Spec
 CONSTANTS
   K = 1
-  NPKG = 3
+  NPKG = 2
   PEERANSWERS = TRUE
   CLOSESIGNAL = TRUE
-  Closers = {"X"}
-  RECHECK = TRUE
+  Closers = {"X", "Y"}
+  RECHECK = FALSE
   GEN = FALSE
-INVARIANTS C13_NoDeliveryAfterClose C13_ClosedReported
+INVARIANTS C13_NoCrash C13_OneTeardown C13_NoDeliveryAfterClose C13_ClosedReported
 PROPERTIES C13_CloseReturns C13_RecvReturnsAfterCancel
 CHECK_DEADLOCK FALSE
